@@ -360,6 +360,20 @@ def stream_encodings(ctx, r):
                 lines.append("pctenc %s %s" % (r.choice(["fragment", "query", "path", "userinfo", "component"]), tok(t, e)))
                 lines.append("pctdec %s" % tok(t, e))
         cases.append(Case(lines, "encodings"))
+    for rep in range(scale(ctx, 150, 2000)):
+        lines = ["parse 0 %s -" % tok("http://h/a/b?q")]
+        for _ in range(15):
+            e = r.choice(["h", "w", "W"])
+            base = r.choice(["%41", "a%4a%5A", "http://ex%41mple.com/", "http://h/%2e%2E/x", "http://1.2.3.4/", "http://0x7f.1/", "http://[::1]/", "http://h:80/p?q#f",
+                             "a=b&c=d", "%zz%4", "file:///C:/x", "http://u:p@h/", "100%20", "//h/p", "\\\\h\\s", "a+b %7e"])
+            al = gens.lowbyte_alias(r, base)
+            lines.append("parse 1 %s %s" % (tok(al, e), r.choice(["0", "-"])))
+            lines.append("pctdec %s" % tok(al, e))
+            lines.append("host %s" % tok(al, e))
+            lines.append("pctenc %s %s" % (r.choice(["path", "userinfo", "component"]), tok(al, e)))
+            lines.append("urlenc_parse 1 %s" % tok(al, e))
+            lines.append("ipv4 %s" % tok(al, e)); lines.append("ipv6 %s" % tok(al, e)); lines.append("endsnum %s" % tok(al, e))
+        cases.append(Case(lines, "lowbyte-alias"))
     for rep in range(scale(ctx, 200, 3000)):
         lines = ["parse 0 %s -" % tok("http://h/a/b?q")]
         for _ in range(20):
@@ -385,6 +399,13 @@ def stream_ipv4(ctx, r):
     nums = ["0", "1", "255", "256", "65535", "65536", "16777215", "16777216", "4294967295", "4294967296", "0xff", "0x100", "0xffffffff", "0x100000000",
             "0377", "0400", "037777777777", "040000000000", "00000000000", "000000000001", "0x00000000001", "99999999999", "999999999999",
             "18446744073709551616", "0x10000000000000000", "08", "09", "0x", "0X1", "1" * 11, "1" * 12, "7" * 11, "7" * 12, ""]
+    small = ["0", "1", "127", "255", "256", "0x7f", "0377", "65535", "16777215", "4294967295"]
+    for n in range(1, 7):
+        for rep in range(scale(ctx, 150, 2000)):
+            parts = [r.choice(small[:4] if i < n - 1 else small) for i in range(n)]
+            for tail in ["", ".", ".."]:
+                s = ".".join(parts) + tail
+                lines.append("ipv4 %s" % tok(s, r.choice(["b", "h", "w"]))); lines.append("endsnum %s" % tok(s))
     for rep in range(scale(ctx, 3000, 60000)):
         parts = [r.choice(nums) for _ in range(r.randint(1, 6))]
         s = ".".join(parts) + r.choice(["", "", ".", ".."])
@@ -433,6 +454,10 @@ def stream_percent(ctx, r):
     alphabet = [0x25, 0x32, 0x65, 0x45, 0x67, 0xC3, 0xA9, 0x80, 0xE2, 0x82]
     for s in gens.bounded_strings(alphabet, scale(ctx, 4, 6)):
         lines.append("pctdec %s" % tok_units("b", s))
+    for rep in range(scale(ctx, 400, 5000)):
+        e = r.choice(["h", "w", "W"])
+        al = gens.lowbyte_alias(r, r.choice(["%41", "%4a%5A", "100%20x", "%e2%82%ac", "%zz%4", "a%2Fb", "%%41"]))
+        lines.append("pctdec %s" % tok(al, e)); lines.append("pctenc component %s" % tok(al, e))
     for b in range(256):
         lines.append("pctdec %s" % tok("%%%02X" % b)); lines.append("pctdec %s" % tok("%%%02x" % b)); lines.append("pctdec %s" % tok("a%%%02Xz" % b))
     for rep in range(scale(ctx, 1000, 30000)):
@@ -486,6 +511,15 @@ def stream_usp(ctx, r):
     for a in names:
         for b in names:
             lines.append("cmpcu %s %s" % (tok(a), tok(b)))
+    offs = [0, 1, 0xff, 0x100, 0x1ff, 0x200, 0x2ff, 0x300, 0x3ff]
+    for blk in [0x10000, 0x1F400, 0x10FC00, 0xE000, 0xFC00, 0x400]:
+        for x in offs:
+            for y in offs:
+                lines.append("cmpcu %s %s" % (tok([97, blk + x]), tok([97, blk + y])))
+    for rep in range(scale(ctx, 300, 5000)):
+        blk = r.choice([0x10000, 0x1F400, 0x10FC00, 0xFC00, 0xD400])
+        nm = [[blk + r.choice(offs)] + ([97] if r.random() < 0.3 else []) for _ in range(r.randint(2, 6))]
+        cases.append(Case(["usp_empty 0"] + ["usp_append 0 %s %s" % (tok(n), tok(str(i))) for i, n in enumerate(nm)] + ["usp_sort 0"], "usp-sort-block"))
     for rep in range(scale(ctx, 500, 20000)):
         a = gens.illformed_units(r, "b"); b = gens.illformed_units(r, "b")
         if r.random() < 0.5: b = a[:r.randint(0, len(a))] + b
@@ -518,7 +552,7 @@ def stream_host(ctx, r):
             lines.append("set 1 %s %s" % (r.choice(["host", "hostname"]), tok(d)))
     return [Case(lines[i:i + 1000], "host") for i in range(0, len(lines), 1000)]
 
-WIN_PATHS = ["C:\\", "C:\\a\\b", "c:/a/b", "C:\\a\\..\\b", "C:\\..", "C:a", "C:", "\\\\host\\share\\p", "\\\\host\\share", "\\\\host\\", "\\\\host", "//host/share/x",
+WIN_PATHS = ["C:\\a\tb", "C:\\secret\\.\t.\\public.txt", "\\\\host\\share\\C\t:\\x", "C:\\a\nb\rc", "C:\\", "C:\\a\\b", "c:/a/b", "C:\\a\\..\\b", "C:\\..", "C:a", "C:", "\\\\host\\share\\p", "\\\\host\\share", "\\\\host\\", "\\\\host", "//host/share/x",
              "\\\\?\\C:\\a", "\\\\.\\C:\\a", "\\\\?\\UNC\\host\\share\\x", "\\\\?\\unc\\h\\s", "\\\\.\\pipe\\x", "\\\\?\\", "\\\\.\\", "\\\\?\\x", "\\\\.\\COM1",
              "\\\\h\\.\\x", "\\\\h\\..\\x", "\\\\.\\s", "\\\\?\\s\\x", "\\\\C:\\s\\x", "\\\\h\\s\\..", "\\\\h\\s\\a\\..\\b", "\\\\h\\\\s", "\\\\h\\s\\\\x",
              "\\\\EXAMPLE\\Share\\x", "\\\\127.1\\s\\x", "\\\\b\u00fccher\\s", "\\\\a b\\s", "\\\\a%41\\s\\%41", "C:\\a%41 ?#\\x", "C:\\\u00fc\\\U0001f4a9", "C:\\a\x00b", "\\\\h\x00\\s",
@@ -550,6 +584,8 @@ def stream_filepath(ctx, r):
         if k < 0.5:
             pre = r.choice(["C:\\", "c:/", "\\\\h\\s\\", "\\\\h\\s", "//h/s/", "\\\\?\\C:\\", "\\\\?\\UNC\\h\\s\\", "\\\\EXAMPLE.com\\Share\\", "\\\\127.1\\s\\", "\\\\b\u00fccher\\s\\", "\\\\[::1]\\s\\", "\\\\a_b\\s\\"])
             p = pre + r.choice(["\\", "/"]).join("".join(r.choice(["a", ".", "..", "%", "%5C", "%41", "?", "#", ":", "|", " ", "\u00fc", "C:", "~"]) for _ in range(r.randint(0, 3))) for _ in range(r.randint(0, 4)))
+            if r.random() < 0.25:
+                k2 = r.randint(0, len(p)); p = p[:k2] + r.choice(["\t", "\n", "\r", ".\t.", "\x01", "\x7f", "C\t:"]) + p[k2:]
             lines.append("filert windows %s" % tok(p, r.choice(["b", "h", "w"])))
             continue
         if r.random() < 0.5:
